@@ -40,9 +40,12 @@ Record variant := mkv {
   v_bcap : bool;       (* 07e8792: the single-builtin path closes the capture pipes *)
   v_capclose : bool;   (* 219c117: a captured last stage with a redirected stream still closes the capture ends *)
   v_capfail : bool;    (* 3c1f8de: a failing capture pipe() releases the stage pipes *)
-  v_bunop : bool       (* d4ac685: a builtin whose target cannot be opened fails with status 1 *)
+  v_bunop : bool;      (* d4ac685: a builtin whose target cannot be opened fails with status 1 *)
+  (* PROPOSED repairs, off in the code as it is: *)
+  v_bfold : bool;      (* notes/C04-fix-3.patch: _get_std_fds as a plain left-to-right fold *)
+  v_capfirst : bool    (* notes/C04-fix-4.patch: a captured last stage gets the capture pipes BEFORE its redirections *)
 }.
-Definition v0 : variant := mkv true true true true true.
+Definition v0 : variant := mkv true true true true true false false.
 
 Section Run.
 Variable v : variant.
@@ -242,10 +245,34 @@ Fixpoint get_std_fds (rs : list redir) (out err : option nat) (p : proc) : proc 
     end
   end.
 
+(* notes/C04-fix-3.patch: the same function as a left-to-right fold.  None = still the shell's own
+   descriptor; 2>&1 dups the CURRENT stdout target, 1>&2 the CURRENT stderr target *)
+Fixpoint get_std_fds_fold (rs : list redir) (out err : option nat) (p : proc) : proc * option nat * option nat :=
+  match rs with
+  | [] => (p, out, err)
+  | r :: rest =>
+    match r_fd r with
+    | F1 =>
+      let '(p, cand) := match r_to r with
+                        | TAmp2 => p_dup (match err with Some fd => fd | None => 2 end) p
+                        | _ => open_cand r p
+                        end in
+      get_std_fds_fold rest cand err (oclose out p)
+    | F2 =>
+      let '(p, cand) := match r_to r with
+                        | TAmp1 => p_dup (match out with Some fd => fd | None => 1 end) p
+                        | _ => open_cand r p
+                        end in
+      get_std_fds_fold rest out cand (oclose err p)
+    end
+  end.
+Definition std_fds (rs : list redir) (p : proc) : proc * option nat * option nat :=
+  if v_bfold v then get_std_fds_fold rs None None p else get_std_fds rs None None p.
+
 (* print_stdout (is_out = true) / print_stderr (false) of a builtin that is alone on its line:
    returns the shell after the call and the object the text was written to *)
 Definition builtin_print (rs : list redir) (is_out : bool) (p : proc) : proc * option obj :=
-  let '(p, o, e) := get_std_fds rs None None p in
+  let '(p, o, e) := std_fds rs p in
   let '(mine, other) := if is_out then (o, e) else (e, o) in
   let p := match other with Some fd => p_close fd p | None => p end in
   let '(p, fd) := match mine with
